@@ -154,6 +154,10 @@ type World struct {
 	Restarts        int
 	Panics          []Outcome
 	AliasViolations []string
+	// FaithfulRequeue: a negative RequeueAfter is dropped, as controller-runtime 0.14 does. Only meaningful when the
+	// controllers' default grace periods are > 0 (timed mode): with the defaults forced to 0 for speed, "now + 0s" turns
+	// every wait the production code would have into a non-positive delay, which is then honoured as "at once".
+	FaithfulRequeue bool
 	// ExtraControllers lets other packages plug in more real controllers (advanced deployment controller).
 	ExtraControllers []func(w *World) *Controller
 	// Trace, if set, receives a line per action.
@@ -178,9 +182,11 @@ type World struct {
 type Options struct {
 	RepoDir      string
 	GraceSeconds int32
-	NoAdmission  bool
-	UIDPrefix    string
-	Concurrent   bool
+	// FaithfulRequeue: see World.FaithfulRequeue
+	FaithfulRequeue bool
+	NoAdmission     bool
+	UIDPrefix       string
+	Concurrent      bool
 }
 
 var oldGrace [3]int32
@@ -190,7 +196,7 @@ func NewWorld(opt Options) (*World, error) {
 	scheme := NewScheme()
 	st := simapi.NewStore(scheme)
 	st.UIDPrefix = opt.UIDPrefix
-	w := &World{Scheme: scheme, Store: st, RepoDir: opt.RepoDir, Concurrent: opt.Concurrent}
+	w := &World{Scheme: scheme, Store: st, RepoDir: opt.RepoDir, Concurrent: opt.Concurrent, FaithfulRequeue: opt.FaithfulRequeue}
 	if !opt.NoAdmission {
 		adm, err := simapi.NewAdmission(st, opt.RepoDir)
 		if err != nil {
@@ -477,8 +483,8 @@ func (w *World) finishReconcile(c *Controller, k types.NamespacedName, out *Outc
 		c.enqueue(k, "error")
 	case out.Result.Requeue:
 		c.enqueue(k, "requeue")
-	case out.Result.RequeueAfter != 0:
-		// RequeueAfter <= 0 comes from time.Until(now + 0s grace); production always has > 0 here.
+	case out.Result.RequeueAfter > 0 || (out.Result.RequeueAfter < 0 && !w.FaithfulRequeue):
+		// controller-runtime 0.14 requeues only for RequeueAfter > 0; a negative value is dropped like a zero one
 		d := out.Result.RequeueAfter
 		if d < 0 {
 			d = 0
